@@ -86,6 +86,9 @@ func (c *Ctx) rebuildSites(pkg func(string) bool) []rebuildSite {
 			if !ok || st.NumFields() < 2 || len(lit.Elts) == 0 {
 				return true
 			}
+			if !c.isNodeStruct(nn) {
+				return true // module-level entities (Constant, GlobalVariable, ...) are derived, not rebuilt
+			}
 			set := map[string]bool{}
 			source := ""
 			for _, el := range lit.Elts {
@@ -170,3 +173,45 @@ func (c *Ctx) runRebuild(r *Report, rule, family string, pkg func(string) bool, 
 }
 
 func itoa(i int) string { return strconv.Itoa(i) }
+
+// isNodeStruct: a variant of one of the IR sum types, or a struct nested by
+// value (possibly in a slice) inside such a variant (SwitchCase, PhiIncoming,
+// Range, StructMember, ...), or the Statement/Expression wrappers.
+func (c *Ctx) isNodeStruct(n *types.Named) bool {
+	key := "nodeStructs"
+	var set map[*types.TypeName]bool
+	if v, ok := c.cache[key]; ok {
+		set = v.(map[*types.TypeName]bool)
+	} else {
+		set = map[*types.TypeName]bool{}
+		var add func(t types.Type)
+		add = func(t types.Type) {
+			t = types.Unalias(t)
+			switch x := t.(type) {
+			case *types.Slice:
+				add(x.Elem())
+			case *types.Array:
+				add(x.Elem())
+			case *types.Pointer:
+				add(x.Elem())
+			case *types.Named:
+				if x.Obj().Pkg() == nil || relPkg(x.Obj().Pkg().Path()) != "ir" || set[x.Obj()] {
+					return
+				}
+				if st, ok := x.Underlying().(*types.Struct); ok {
+					set[x.Obj()] = true
+					for i := 0; i < st.NumFields(); i++ {
+						add(st.Field(i).Type())
+					}
+				}
+			}
+		}
+		for _, s := range c.sumTypes("ir") {
+			for _, v := range s.Variants {
+				add(v)
+			}
+		}
+		c.cache[key] = set
+	}
+	return set[n.Obj()]
+}
